@@ -453,6 +453,14 @@ class SolverRun:
         except Exception:   # noqa: BLE001
             last["bf"] = "none"
 
+    def set_params(self, limit=None, eps=None):
+        """the user changes the SolverParameters object the solver was built with (a larger budget, another accuracy) to continue"""
+        if limit is not None:
+            self.params.itersLimit = int(limit)
+        if eps is not None:
+            self.params.eps = float(eps)
+        self.emit({"ev": "setparams", "limit": int(self.params.itersLimit), "eps": q(float(self.params.eps))})
+
     def observe(self):
         """no call into the solver except GetResults(): what the user sees of this solver right now"""
         self.emit({"ev": "call", "name": "observe", "k": 0})
